@@ -39,6 +39,7 @@ type Result struct {
 	Choices []Choice
 	Steps   int
 	Trace   []string // optional step trace (when Config.Trace)
+	Lockset []string // "Type.field (read|write) at file:line" touched without the lock (see Touch)
 }
 
 // Config of one execution.
@@ -1077,4 +1078,58 @@ func Exposed(owner any, name string) any {
 		return s.values["expose:"+fmt.Sprintf("%p/%s", owner, name)]
 	}
 	return nil
+}
+
+// ---------------------------------------------------------------------------------------------
+// lock discipline (inserted by verif-instr: see `guarded` there)
+
+// LockHolder is implemented by the vsync mutexes.
+type LockHolder interface {
+	HeldByCurrent(write bool) bool
+}
+
+// CurrentID identifies the running managed goroutine (0 outside an execution).
+func CurrentID() int {
+	if s := cur(); s != nil && s.cur != nil {
+		return s.cur.id + 1
+	}
+	return 0
+}
+
+// Touch records an access to data which must only be touched while lock is held by the running
+// goroutine (for writing, exclusively). Violations end up in Result.Lockset, once per site.
+func Touch(lock LockHolder, what string, write bool, site string) {
+	s := cur()
+	if s == nil || s.cur == nil || s.cur.name == "main" {
+		return // free-running, or the harness goroutine inspecting state at quiescence
+	}
+	if lock.HeldByCurrent(write) {
+		return
+	}
+	mode := "read"
+	if write {
+		mode = "write"
+	}
+	msg := what + " (" + mode + ") at " + site
+	for _, x := range s.res.Lockset {
+		if x == msg {
+			return
+		}
+	}
+	s.res.Lockset = append(s.res.Lockset, msg)
+}
+
+// PlainAccess records a non-atomic mention of a flag which must only be used through sync/atomic.
+func PlainAccess(what string, site string) {
+	s := cur()
+	if s == nil || s.cur == nil || s.cur.name == "main" {
+		return
+	}
+	msg := what + " (plain) at " + site
+	for _, x := range s.res.Lockset {
+		if x == msg {
+			return
+		}
+	}
+	s.res.Lockset = append(s.res.Lockset, msg)
 }
